@@ -76,6 +76,14 @@ CHECKS["C18"] = dict(engine="editions", design="4 C18", technique="TLA+ model ch
          "installed reporters-db (thorough: every string) x boundary years x six year positions is extracted with and without remove_ambiguous; TLC judges year range / year text / guess "
          "membership / single candidate / needs-year / only-candidate-publishing / disambiguation = filter of the default run, and recomputes every guess with the model."),
    note="Trusted: TLC + Json; candidate editions and their date ranges are read from the citation's own Edition objects; 'own year' = not a parallel citation (same full-span start as the preceding full case citation).")
+CHECKS["C16"] = dict(engine="equality", design="4 C16", technique="TLA+ model checking of Equality.tla (hash / == / Resource over a toy database, all pairs) + database-exhaustive comparison groups + TLC trace validation",
+   text=("Equality.tla transcribes the class-specific hashes, == as hash equality, Resource hashing and reporter normalisation through guess_edition; TLC checks all pairs of abstract "
+         "citations over a toy database containing every ambiguity pattern: CaseIff (equal iff same class, volume, page, corrected reporter, page not placeholder), SelfOnly, CrossKind, "
+         "HashResource, MetaFree. For every reporter string that reporters-db (read directly) maps to exactly one edition a comparison group is extracted: canonical and variant spelling in "
+         "different contexts (pin, year in / out of the edition's range, parties, parenthetical, court), other page, other volume, a sibling edition, short forms, two placeholder pages; "
+         "plus nominative / id / unknown / law / journal groups and pools of all database examples. TLC judges ==, hash, Resource against the written identity, the equivalence laws and the "
+         "corrected_citation round trip."),
+   note="Trusted: TLC + Json; members not extracted exactly as written (custom templates) are skipped and counted; example pools take the written identity from the extracted groups.")
 NA_REASON = "check not built yet (work in progress; see DESIGN.md section 10 build order)"
 checks = []
 for p in props:
@@ -107,6 +115,8 @@ m = {"version": 1,
               "serves_properties": ["C03"], "kind_free_text": "TLA+ spec, TLC model checking, list replay, TLC trace validation"},
              {"name": "editions", "path": "spec/Editions.tla spec/MC_Editions.tla spec/Trace_Editions.tla harness/chk_editions.py harness/drv_extract.py",
               "serves_properties": ["C18"], "kind_free_text": "TLA+ spec, TLC model checking, database-exhaustive extraction, TLC trace validation"},
+             {"name": "equality", "path": "spec/Equality.tla spec/MC_Equality.tla spec/Trace_Equality.tla harness/chk_equality.py harness/drv_extract.py",
+              "serves_properties": ["C16"], "kind_free_text": "TLA+ spec, TLC model checking, database-exhaustive comparison groups, TLC trace validation"},
              {"name": "annotate", "path": "spec/Annotate.tla spec/SpanUpdater.tla spec/MC_Annotate.tla spec/MC_SpanUpdater.tla spec/Trace_Annotate.tla spec/Trace_SpanUpdater.tla harness/chk_annotate.py harness/drv_annotate.py",
               "serves_properties": ["C09", "C10", "C11"], "kind_free_text": "TLA+ spec, TLC model checking, configuration replay, TLC trace validation"}],
  "checks": checks,
